@@ -12,7 +12,7 @@ CLAIM = {
     'note': 'Exhaustive over the order-class quotient of the extracted formula (not an execution of fix8 code). Assumes start time < end '
             'time (enforced by create_schedule) and checks at least once per time class. Undecided: utc-offset arithmetic, decode_dow\'s '
             'control flow over arbitrary strings.',
-    'technique': 'decision-function extraction + exhaustive enumeration over the finite order-class quotient',
+    'technique': 'decision-function extraction + exhaustive enumeration over the finite order-class quotient; copy completeness of Schedule; critical-point evaluation of Tickval::adjust',
 }
 UNITS = ['runtime/session.cpp', 'runtime/f8utils.cpp', 'runtime/configuration.cpp']
 EXPLANATION = (
